@@ -49,7 +49,7 @@ class JobResult:
 class Checker:
     """wraps an Exec + JobResult: explores, then discharges obligations on every completed path"""
 
-    def __init__(self, prog, name, qtimeout_ms=20000):
+    def __init__(self, prog, name, qtimeout_ms=30000):
         self.p = prog
         self.ex = Exec(prog)
         self.res = JobResult(name)
@@ -106,7 +106,10 @@ class Checker:
                 s.add(c)
             s.add(neg)
             res = s.check()
-            r.solver_s += time.time() - t
+            dt = time.time() - t
+            r.solver_s += dt
+            if dt > 5:
+                r.notes.append(f'slow obligation {qclass}: {dt:.1f}s ({res})')
             if qclass not in self._classes and len(r.smt_dumps) < self.max_dumps:
                 self._classes.add(qclass)
                 r.smt_dumps.append((qclass, s.to_smt2(), str(res)))
@@ -115,6 +118,18 @@ class Checker:
                 return None
             if res == z3.sat:
                 return s.model()
+            # timeout / unknown: second opinion from the external solvers on the dumped query (longer budget)
+            ans = external_decide(s.to_smt2(), 300)
+            if ans == 'unsat':
+                r.discharged += 1
+                r.notes.append(f'obligation {qclass} decided by an external solver after z3 timeout')
+                return None
+            if ans == 'sat':
+                s.set('timeout', 600000)
+                res = s.check()
+                s.set('timeout', self.qtimeout)
+                if res == z3.sat:
+                    return s.model()
             r.inconclusive.append(f'solver unknown/timeout on obligation {qclass}')
             return False
         finally:
@@ -167,6 +182,44 @@ def model_int(m, term, signed=True):
     if z3.is_false(v):
         return False
     raise Unsupported(f"cannot evaluate {term}")
+
+
+def external_decide(smt2_text, timeout):
+    """first definite answer of z3-new / cvc5 run in parallel on the query"""
+    import threading
+    with tempfile.NamedTemporaryFile('w', suffix='.smt2', delete=False, dir='/var/tmp') as f:
+        if '(set-logic' not in smt2_text:
+            f.write('(set-logic ALL)\n')
+        f.write(smt2_text)
+        if '(check-sat)' not in smt2_text:
+            f.write('\n(check-sat)\n')
+        path = f.name
+    procs = []
+    try:
+        for cmd in (['z3-new', path], ['cvc5', '--lang', 'smt2', path], ['z3', 'sat.euf=false', 'tactic.default_tactic=smt', path]):
+            try:
+                procs.append(subprocess.Popen(cmd, stdout=subprocess.PIPE, stderr=subprocess.DEVNULL, text=True))
+            except FileNotFoundError:
+                pass
+        t0 = time.time()
+        while time.time() - t0 < timeout and procs:
+            for p in list(procs):
+                rc = p.poll()
+                if rc is not None:
+                    out = p.stdout.read()
+                    procs.remove(p)
+                    for l in out.split('\n'):
+                        if l.strip() in ('sat', 'unsat') and '(error' not in out:
+                            return l.strip()
+            time.sleep(0.2)
+        return 'unknown'
+    finally:
+        for p in procs:
+            try:
+                p.kill()
+            except Exception:
+                pass
+        os.unlink(path)
 
 
 def cross_check(smt2_text, expected, timeout=60):
